@@ -513,6 +513,9 @@ def rewrite_index(text, names, counts):
             text, n = re.subn(rx2, rep2, text)
             if n:
                 counts[rid] = counts.get(rid, 0) + n
+        text, n = re.subn(r"(?<![\w\.])%s\.get_mut\(((?:[^()]|\([^()]*\))*)\)\.is_some\(\)" % re.escape(name), name + r".has(\1)", text)
+        if n:
+            counts["R12-has"] = counts.get("R12-has", 0) + n      # `v.get_mut(i).is_some()` == `i < v.len()`
         rx = re.compile(r"(&mut\s+)?(?<![\w\.])%s\[((?:[^\[\]]|\[[^\[\]]*\])*)\](\s*=(?!=))?" % re.escape(name))
 
         def rep(m):
